@@ -35,7 +35,7 @@ SCHEMA = {
     },
     "HvsrTraditional": {
         "valid_peak_boolean_mask": "boolarr", "valid_window_boolean_mask": "boolarr",
-        "_main_peak_frq": "arr", "_main_peak_amp": "arr", "n_curves": "int",
+        "_main_peak_frq": "arr", "_main_peak_amp": "arr", "n_curves": "int", "amplitude": "arr2",
     },
     "SeismicRecording3C": {
         "ns": ("obj", "TimeSeries"), "ew": ("obj", "TimeSeries"), "vt": ("obj", "TimeSeries"),
@@ -113,6 +113,15 @@ def sobj_getattr(ex, st, o, attr, node=None):
         cache[key] = ref
         st.env["__sobj_arrays"] = cache
         return ref
+    if kind == "arr2":
+        # 2-D real array field: rows x columns, content a function of (object, row, column)
+        nr, nc = fld(o.cls, attr + "_rows", I)(o.id), fld(o.cls, attr + "_cols", I)(o.id)
+        r, c = z3.Ints("r!so c!so")
+        key = (o.cls, attr, "data3")
+        if key not in _FUNCS:
+            _FUNCS[key] = z3.Function(f"fld_{o.cls}_{attr}_at", I, I, I, R)
+        from .core import L2
+        return ex.alloc_arr(st, (nr, nc), L2(r, c, _FUNCS[key](o.id, r, c)), "real", owner=f"{o.owner}.{attr}", tag=f"{o.cls}_{attr}")
     if kind == "boolarr":
         n = arr_len(o.cls, attr, o.id)
         j = z3.Int("j!so")
